@@ -6,4 +6,4 @@ Extraction "../_work/ocaml/ex_fmt.ml"
   strtol10 to_int parse_format driver
   format_to_string format_to_latin1 format_to_stream insert_units
   validate_utf8 cleanup_utf8 decode_utf8 encode_utf16 latin1_byte from_utf8
-  spec_format scan render_field.
+  spec_format scan render_field extract_token set_from_token.
